@@ -39,6 +39,10 @@ var dstKinds = []string{"rgba64", "rgba", "nrgba", "nrgba64", "opaque"}
 // concrete pixel-store types it is a sub-image of a larger parent (stride > width).
 func newSource(rg *rng, kind string, r image.Rectangle) image.Image {
 	outer := image.Rect(r.Min.X-rg.intn(3), r.Min.Y-rg.intn(3), r.Max.X+rg.intn(4), r.Max.Y+rg.intn(3))
+	if srcMargins != nil {
+		// a sub-image placed exactly: margins left, top, right, bottom inside its parent
+		outer = image.Rect(r.Min.X-srcMargins[0], r.Min.Y-srcMargins[1], r.Max.X+srcMargins[2], r.Max.Y+srcMargins[3])
+	}
 	fill := func(p []uint8) {
 		for i := range p {
 			p[i] = byte(rg.next())
@@ -284,22 +288,35 @@ func newDestX(rg *rng, kind string, origin image.Point, size image.Point, exact 
 		r = image.Rect(origin.X, origin.Y, origin.X+size.X, origin.Y+size.Y)
 		outer = image.Rect(r.Min.X, r.Min.Y-bandRows[0], r.Max.X, r.Max.Y+bandRows[1])
 	}
+	pad := oddStridePad
 	mk := func(pix []uint8) (draw.Image, []uint8, int, int, string) {
 		switch kind {
 		case "rgba":
 			m := image.NewRGBA(outer)
+			if pad > 0 {
+				m.Stride += pad
+				m.Pix = make([]uint8, m.Stride*outer.Dy())
+			}
 			if pix != nil {
 				copy(m.Pix, pix)
 			}
 			return m.SubImage(r).(draw.Image), m.Pix, m.PixOffset(r.Min.X, r.Min.Y), m.Stride, "rgba"
 		case "nrgba":
 			m := image.NewNRGBA(outer)
+			if pad > 0 {
+				m.Stride += pad
+				m.Pix = make([]uint8, m.Stride*outer.Dy())
+			}
 			if pix != nil {
 				copy(m.Pix, pix)
 			}
 			return m.SubImage(r).(draw.Image), m.Pix, m.PixOffset(r.Min.X, r.Min.Y), m.Stride, "nrgba"
 		case "nrgba64":
 			m := image.NewNRGBA64(outer)
+			if pad > 0 {
+				m.Stride += pad
+				m.Pix = make([]uint8, m.Stride*outer.Dy())
+			}
 			if pix != nil {
 				copy(m.Pix, pix)
 			}
@@ -312,6 +329,10 @@ func newDestX(rg *rng, kind string, origin image.Point, size image.Point, exact 
 			return opaqueImg{m.SubImage(r).(draw.Image)}, m.Pix, m.PixOffset(r.Min.X, r.Min.Y), m.Stride, "rgba64"
 		default:
 			m := image.NewRGBA64(outer)
+			if pad > 0 {
+				m.Stride += pad
+				m.Pix = make([]uint8, m.Stride*outer.Dy())
+			}
 			if pix != nil {
 				copy(m.Pix, pix)
 			}
@@ -447,6 +468,21 @@ func corrC10(c *corrCtx) {
 				bandRows = nil
 			}
 		}
+		// hand-built destinations whose stride is not a multiple of the pixel size (rows padded by 1, 3, 4, 5, 12 bytes):
+		// pixels must land where PixOffset says and the padding must stay untouched
+		for _, dk := range []string{"rgba64", "rgba", "nrgba", "nrgba64"} {
+			for _, pd := range []int{1, 3, 4, 5, 12} {
+				g := geoms[4+r.intn(len(geoms)-4)]
+				x := xs[r.intn(len(xs))]
+				oddStridePad = pd
+				n := r.pick(1, 2, 3, g.h+5)
+				sb := image.Rect(-2, 3, -2+g.w, 3+g.h)
+				src := newSource(r, dk, sb)
+				c10CaseX(c, r, "odd-stride/"+dk, src, src.Bounds(), dk, image.Pt(r.intn(9)-4, r.intn(9)-4), x, n, false, r.intn(2) == 0)
+				c10Case(c, r, "odd-stride-inplace/"+dk, nil, image.Rect(0, 0, g.w, g.h), dk, image.Pt(r.intn(9)-4, r.intn(9)-4), x, n, true)
+				oddStridePad = 0
+			}
+		}
 		// the image-level entry points against the per-colour functions on images large enough to meet rare
 		// (component, alpha) pairs — a whole-image result must be, pixel for pixel, what the colour function gives
 		// (direct oracle only: too large for the line protocol)
@@ -517,6 +553,14 @@ var c10Chain bool
 
 // bandRows, when set, makes newDestX build destinations that are full-width bands of their parent
 var bandRows *[2]int
+
+// srcMargins, when set, makes newSource build a sub-image with exactly these margins (left, top, right, bottom) inside
+// its parent — flush with the parent's last row, its first row, its right or left edge
+var srcMargins *[4]int
+
+// oddStridePad, when positive, makes newDestX build hand-made parents whose stride is the row length plus that many
+// padding bytes (a legal image: Stride is any distance between rows; it need not be a multiple of the pixel size)
+var oddStridePad int
 
 func c10Case(c *corrCtx, r *rng, class string, src image.Image, sb image.Rectangle, dk string, dOrigin image.Point, x xform, n int, inPlace bool) {
 	c10CaseX(c, r, class, src, sb, dk, dOrigin, x, n, inPlace, r.intn(2) == 0)
@@ -605,12 +649,36 @@ func corrC15(c *corrCtx) {
 	kinds := append(append([]string{}, srcKinds...), "rgba-raw", "rgba64-raw")
 	type geom struct{ w, h int }
 	geoms := []geom{{0, 0}, {1, 1}, {1, 6}, {6, 1}, {5, 4}, {8, 9}, {16, 3}}
+	type job struct {
+		sk string
+		mg *[4]int
+	}
 	for rep := 0; rep < reps; rep++ {
+		var jobs []job
 		for _, sk := range kinds {
+			jobs = append(jobs, job{sk, nil})
+		}
+		// sub-images flush with an edge of their parent: inset from the left but ending on the parent's last row (the
+		// last row of Pix is then shorter than Stride), on its first row, flush right, inset all round
+		if rep == 0 || c.thorough() {
+			for _, sk := range []string{"rgba", "rgba64", "nrgba", "nrgba64", "gray", "ycbcr444"} {
+				for _, mg := range [][4]int{{1, 1, 0, 0}, {2, 0, 0, 0}, {0, 0, 1, 1}, {1, 0, 0, 1}, {1, 1, 1, 1}} {
+					m := mg
+					jobs = append(jobs, job{sk, &m})
+				}
+			}
+		}
+		for _, jb := range jobs {
+			sk := jb.sk
 			g := geoms[r.intn(len(geoms))]
+			if jb.mg != nil {
+				g = geoms[1+r.intn(len(geoms)-1)]
+			}
 			o := image.Pt(r.intn(15)-7, r.intn(15)-7)
 			sb := image.Rect(o.X, o.Y, o.X+g.w, o.Y+g.h)
+			srcMargins = jb.mg
 			src := newSource(r, sk, sb)
+			srcMargins = nil
 			sb = src.Bounds()
 			table := srcTable(src)
 			snap := snapshot(src)
